@@ -4,7 +4,7 @@
 //! Alphabet: N classes C0..C(N-1); the ordered public super list of each class is any sequence
 //! of length <= 2 over {C0..C(N-1), Missing (unresolvable), En (an enum, i.e. not a class)}.
 //! Declarations: property `p`, method `m` (two overloads plus neighbours `l`, `n` in the sorted
-//! method table), nested enum `E { V, V<i> }` are placed on every subset of the classes.
+//! method table, and `la`, `lB`, `Lz` whose byte order and case-folded order differ), nested enum `E { V, V<i> }` are placed on every subset of the classes.
 //! Graphs are built with `metatype::Class` values exactly as user-supplied metatypes would be.
 
 use qmluic::metatype;
@@ -147,6 +147,14 @@ fn build_type_map(sp: &Space, g: u64, supers: &[&Vec<Sym>], mask: u32) -> TypeMa
                 _ => {}
             }
         }
+        {
+            // every class has its own property `r` whose NOTIFY names signal `n`: the signal is found exactly
+            // when the class or a public ancestor declares `n`
+            let mut r = metatype::Property::new("r", "int");
+            r.read = Some("r".to_owned());
+            r.notify = Some("n".to_owned());
+            c.properties.push(r);
+        }
         if mask >> i & 1 == 1 {
             let mut p = metatype::Property::new("p", "int");
             p.read = Some("p".to_owned());
@@ -156,6 +164,10 @@ fn build_type_map(sp: &Space, g: u64, supers: &[&Vec<Sym>], mask: u32) -> TypeMa
             c.slots
                 .push(metatype::Method::with_argument_types("m", "void", ["int"]));
             c.signals.push(metatype::Method::nullary("n", "void"));
+            // names whose byte order and case-folded order differ (lB < la, Lz < l byte-wise)
+            c.methods.push(metatype::Method::nullary("la", "void"));
+            c.slots.push(metatype::Method::nullary("lB", "void"));
+            c.signals.push(metatype::Method::nullary("Lz", "void"));
             // a scoped enum (its variants are not visible unqualified) before or after the unscoped one
             let mut scoped = metatype::Enum::with_values("S", ["SV".to_owned(), format!("SV{i}")]);
             scoped.is_class = true;
@@ -373,8 +385,33 @@ fn check_case(sp: &Space, g: u64, mask: u32, st: &mut Stats) {
             .get_property("q")
             .map(|r| r.map(|p| class_index(p.object_class())).map_err(|e| e.to_string()));
         judge_lookup(st, "property-undeclared", x, r, &none_declared, &m, &wit);
+        // the NOTIFY signal of the class's own property `r`: looked up like a method (ancestors included)
+        if let Some(Ok(pr)) = classes[x].get_property("r") {
+            if class_index(pr.object_class()) != Some(x) {
+                st.violation("lookup(property-r):own-declaration-not-preferred".to_owned(), || {
+                    format!("query C{x} in {}", wit())
+                });
+            }
+            let r = match pr.notify_signal() {
+                None => None,
+                Some(Ok(sig)) => Some(Ok(class_index(sig.object_class()))),
+                Some(Err(e)) => {
+                    let text = e.to_string();
+                    if text.contains("notify") {
+                        None // "no such signal": the not-found answer of this query
+                    } else {
+                        Some(Err(text))
+                    }
+                }
+            };
+            judge_lookup(st, "notify-signal", x, r, &declared, &m, &wit);
+        } else if !m.err_reach[x] {
+            st.violation("lookup(property-r):own-property-not-found".to_owned(), || {
+                format!("query C{x} in {}", wit())
+            });
+        }
         // methods (first, overloaded middle, last of the sorted table, and an absent name)
-        for name in ["l", "m", "n", "k", "o"] {
+        for name in ["l", "m", "n", "la", "lB", "Lz", "k", "o", "lb", "LA", "lz", "M"] {
             let r = classes[x].get_public_method(name).map(|r| {
                 r.map(|ms| {
                     let v = ms.into_vec();
@@ -390,7 +427,7 @@ fn check_case(sp: &Space, g: u64, mask: u32, st: &mut Stats) {
                 })
                 .map_err(|e| e.to_string())
             });
-            let decl = if matches!(name, "l" | "m" | "n") {
+            let decl = if matches!(name, "l" | "m" | "n" | "la" | "lB" | "Lz") {
                 &declared
             } else {
                 &none_declared
